@@ -13,6 +13,7 @@ use sylt_parser::{Expression as PE, ExpressionKind as EK, StatementKind as SK};
 
 const ATOMS: &[&str] = &[
     "1", "x", "f(x)", "t[0]", "a.b", "2.5", "\"s\"", "true", "[1]", "(1, 2)", "(if c do 1 else 2 end)", "g()", "a.b.c", "f(x)(y)",
+    "(1, 2)[0]", "(f)(x)", "(a).b", "P { x: 1 }.x", "[1, 2]", "(1,)", "(x -> f())", "t[0][1]", "(E.A 1)",
 ];
 
 #[derive(Clone, Debug)]
